@@ -88,12 +88,30 @@ func galias(args []string) error {
 			for _, d := range st["docsC"].E {
 				docsC = append(docsC, abs.FromTLA(d))
 			}
-			cfg := map[string]interface{}{"avx512": avx512, "copy": cp, "history": fmt.Sprint(histString(hist))}
+			prev, how := st["prev"].S, st["how"].S
+			cfg := map[string]interface{}{"avx512": avx512, "copy": cp, "history": fmt.Sprint(histString(hist)), "reused_after": prev, "option": how}
 			bad := func(what, want, got string) {
-				rep.Add(run.Mismatch{Property: *prop, Sig: what + ":" + string(text0) + ":" + fmt.Sprint(histString(hist)) + fmt.Sprint(cp), Text: string(text0), Cfg: cfg, Want: want, Got: got, Detail: what})
+				rep.Add(run.Mismatch{Property: *prop, Sig: what + ":" + string(text0) + ":" + fmt.Sprint(histString(hist)) + fmt.Sprint(cp) + prev + how, Text: string(text0), Cfg: cfg, Want: want, Got: got, Detail: what})
 			}
 			input := append([]byte{}, text0...)
-			pj, err := run.Parse(input, run.Cfg{AVX512: avx512, Copy: cp}, nil)
+			// the object may be a reused one whose previous call ran with either option
+			var reuse *simdjson.ParsedJson
+			if prev != "fresh" {
+				other := []byte(`{"zz":"yy","q":["w\n",12],"zz2":{"k":"vvvvvvvvvvvvvvvvvvvvvvvvvvvvvvvvvvvvvvvv"}}`)
+				r0, perr := simdjson.Parse(other, nil, simdjson.WithCopyStrings(prev == "copy"))
+				if perr != nil {
+					bad("parse", "the previous document is valid", perr.Error())
+					return
+				}
+				reuse = r0
+			}
+			var pj *simdjson.ParsedJson
+			var err error
+			if how == "default" {
+				pj, err = simdjson.Parse(input, reuse) // string copying is the default
+			} else {
+				pj, err = run.Parse(input, run.Cfg{AVX512: avx512, Copy: cp}, reuse)
+			}
 			rep.Count("evaluations", 1)
 			if err != nil {
 				bad("parse", "accept", err.Error())
